@@ -230,8 +230,10 @@ class C06:
         name = pool[rc.randrange(len(pool))]
         cfg = cfg_for(name, rc)
         env = make_env(cfg)
-        row = E.gen_rows(env, cfg, 1, st.torch_seed("instances"))[0]
-        return {"cfg": cfg, "instance": E.enc_row(row), "strategy": rc.choice(D.STRATEGIES),
+        two = E.gen_rows(env, cfg, 2, st.torch_seed("instances"))
+        row = two[0]
+        companion = E.enc_row(two[1]) if (name not in ("tsp_kopt", "pdp_ruin_repair") and rc.random() < 0.5) else None
+        return {"cfg": cfg, "instance": E.enc_row(row), "companion": companion, "strategy": rc.choice(D.STRATEGIES),
                 "base": rc.choice(["mask", "mask", "ref"]), "max_faults": MAX_FAULTS[tier],
                 "fault_seed": rc.randrange(1 << 30), "pad": rc.randint(0, 3),
                 "moves": rc.randint(0, 6)}
@@ -273,15 +275,29 @@ def _verdict(ref, acts):
 
 
 def _call_checker(run, env, td, acts):
-    """-> None if the checker returned normally, else the exception"""
+    """-> None if the checker returned normally, else the exception.  With a companion (another instance with
+    a feasible solution of its own, e.g. another MTVRP variant) the checker is called on the batch of both,
+    the tested solution first or second: the batch verdict must be the tested solution's verdict."""
+    comp = getattr(run, "_companion", None)
     try:
-        env.check_solution_validity(td, torch.tensor([acts], dtype=torch.long))
+        if comp is None:
+            env.check_solution_validity(td, torch.tensor([acts], dtype=torch.long))
+        else:
+            run._comp_flip = not getattr(run, "_comp_flip", False)
+            T = max(len(acts), len(comp["acts"]))
+            a = list(acts) + [0] * (T - len(acts))
+            c = list(comp["acts"]) + [0] * (T - len(comp["acts"]))
+            rows = [comp["row"], run._tested_row] if run._comp_flip else [run._tested_row, comp["row"]]
+            td2 = E.reset(env, run.plan["cfg"], rows)
+            env.check_solution_validity(td2, torch.tensor([c, a] if run._comp_flip else [a, c], dtype=torch.long))
+            run.probe("batched_checker_call")
         return None
     except Exception as e:  # noqa: BLE001 - any exception is a rejection
         return e
 
 
 def _judge(run, name, cfg, row, ref, env, td, acts, kind, info, stats):
+    run._tested_row = row
     verdict, v = _verdict(ref, acts)
     if verdict == "band":
         run.probe("indeterminate_band")
@@ -355,6 +371,22 @@ def _constructive(run, env, cfg, row):
     if verdict != "feasible":
         run.probe("base_not_clearly_feasible")
         return
+    run._companion = None
+    if p.get("companion") and name in DEPOT_ENVS | {"tsp", "atsp", "pdp"}:
+        crow = E.dec_row(p["companion"])
+        cref = RR.make_ref(name, crow, cfg)
+        tdc = E.reset(env, cfg, [crow])
+        cacts = []
+        capc = D.step_bound_generic(cfg, tdc)
+        while not bool(E.done_vec(tdc)[0]) and len(cacts) < capc:
+            oc = D.admitted(tdc["action_mask"][0])
+            if not oc:
+                break
+            cacts.append(oc[run.chooser.pick(len(oc))])
+            tdc = E.step(env, tdc, torch.tensor([cacts[-1]]))
+        if bool(E.done_vec(tdc)[0]) and _verdict(cref, cacts)[0] == "feasible" and (
+                name in DEPOT_ENVS or len(cacts) == len(acts)):
+            run._companion = {"row": crow, "acts": cacts}
     _judge(run, name, cfg, row, ref0, env, td0, acts, "base", "", stats)
     pad = p["pad"]
     if name == "svrp":  # a lock-step batch never pads beyond the number of technicians
